@@ -580,6 +580,26 @@ fn sweep_large(sh: &Shared) -> u64 {
             }
         }
     }
+    // large flat areas: one colour repeated n times around the first count whose channel sum leaves the exactly
+    // representable range of a 32-bit float (255 * 65794 > 2^24), small enough for the requested size not to be
+    // subsampled, so the reproduction must still be exact
+    for n in 65_788usize..=65_812 {
+        for colour in [[255u8, 255, 255, 255], [255, 127, 1, 255], [254, 253, 251, 255]] {
+            for extra in [0usize, 1] {
+                let mut pixels = vec![colour; n];
+                for _ in 0..extra {
+                    pixels.push([0, 0, 0, 255]);
+                }
+                for dither in [false, true] {
+                    cases.push(QCase { h: 1, w: pixels.len(), pixels: pixels.clone(), size: 512, dither, bg: None, crop: false });
+                }
+            }
+        }
+    }
+    for n in [132_100usize, 132_107, 132_111, 197_379, 197_383] {
+        let pixels = vec![[254u8, 254, 254, 255]; n];
+        cases.push(QCase { h: 1, w: n, pixels, size: 1024, dither: false, bg: None, crop: false });
+    }
     let n = cases.len() as u64;
     cases.par_iter().for_each(|c| {
         if sh.stop.load(Ordering::Relaxed) {
